@@ -92,6 +92,9 @@ def variant_items():
     # drops the byte and reports no error, so the page is error-free and its notes need ZIDs
     out.append(["- caf\udce9 au lait, no zid yet"])
     out.append(["o P1 2024-02-03 dated caf\udce9", "  second line \udce9"])
+    # an item that consists of its create date and nothing else
+    out.append(["- 2024-02-03"])
+    out.append(["o P1 2024-02-03"])
     # a create date after 2099: the ZID can only carry two of its year digits
     out.append(["- 2150-03-04 dated in the next century"])
     return out
